@@ -301,6 +301,12 @@ pub fn c17(sc: &Scenario, rr: &RunResult) -> Vec<Violation> {
         return out;
     }
     for m in rr.meta.iter().filter(|m| m.pos == "start") {
+        // the probe sits behind the block's first operator: the walk below pairs the i-th data
+        // element consumed by Start with the i-th one observed, which holds for every first
+        // operator but zip (one pair per two inputs)
+        if matches!(crate::oracle::step_at(&sc.steps, &m.path), Some(Step::Bin(_, _, BinOp::Zip))) {
+            continue;
+        }
         for c in coords_of(rr, m.id) {
             let hist = &rr.rec.probes[&(m.id, c)];
             let prev = upstream_blocks(rr, &m.path);
@@ -389,6 +395,22 @@ pub fn c17(sc: &Scenario, rr: &RunResult) -> Vec<Violation> {
                             idx += 1;
                         }
                         if let Some(Some(f)) = expect.get(idx) {
+                            if last_wm.map(|w| w > *f).unwrap_or(false) {
+                                out.push(viol(
+                                    "C17",
+                                    "exceeds-minimum",
+                                    format!(
+                                        "probe {} (after Start, path {:?}) at {:?}: data element #{} observed after Watermark({}), but the minimum over the upstream replicas that have not ended is only {}",
+                                        m.id,
+                                        m.path,
+                                        c,
+                                        idx,
+                                        last_wm.unwrap(),
+                                        f
+                                    ),
+                                ));
+                                break;
+                            }
                             if last_wm != Some(*f) && last_wm.map(|w| w < *f).unwrap_or(true) {
                                 out.push(viol(
                                     "C17",
